@@ -394,7 +394,7 @@ pub fn write_replay(scn: &dyn Scenario, tier: Tier, seed: u64, index: u64, origi
     (path, v, r.ctx.log.0)
 }
 
-/// Replays a file. Exit code semantics: 1 = violation reproduced (same class and log hash),
+/// Replays a file. Exit code semantics: 1 = violation reproduced (same class; a differing log hash is remarked on),
 /// 0 = no violation, 2 = mismatch / harness error.
 pub fn replay_file(path: &Path, scenarios: &[Box<dyn Scenario>]) -> i32 {
     let text = match std::fs::read_to_string(path) {
@@ -440,8 +440,14 @@ pub fn replay_file(path: &Path, scenarios: &[Box<dyn Scenario>]) -> i32 {
                 println!("VIOLATION property={} replay={}", scn.property(), path.display());
                 1
             } else if v.class == want_class {
-                eprintln!("same violation class but a different event log: replay is not exact");
-                2
+                // The same run fails the same way, but some recorded value (a sleep length, say) differs:
+                // the tree under test reads something the simulator does not own -- the real monotonic
+                // clock, in every case seen. On the unchanged tree event logs are exact (selftest
+                // determinism); a tree that makes them inexact AND violates the property is reported as
+                // the violation it is, with this remark, not as a harness error.
+                println!("note: same violation class, but the event log differs from the recorded one (the tree under test depends on something outside the simulator's seams, e.g. the real clock)");
+                println!("VIOLATION property={} replay={}", scn.property(), path.display());
+                1
             } else {
                 eprintln!("a different violation class than recorded ({want_class})");
                 2
